@@ -173,6 +173,13 @@ def run(ctx):
         with deadline(120):
             law("SPM-closed-form-with-loss", FIBER(FIBER(x, L1, al, 0, 0, gamma), L2, al, 0, 0, gamma).signal + 1, FIBER(x, L, al, 0, 0, gamma).signal + 1)
             law("SPM-closed-form", FIBER(FIBER(x, L1, 0, 0, 0, gamma), L2, 0, 0, 0, gamma).signal + 1, o.signal + 1)
+            # an input that also carries a noise record: the closed form is that of the signal's own power, the noise record is handed over
+            nzr = (rs.randn(*np.shape(x.signal)) + 1j * rs.randn(*np.shape(x.signal))) * 0.3 * math.sqrt(P0)
+            xn = optical_signal(np.array(x.signal), nzr)
+            on = FIBER(xn, L, 0.0, 0.0, 0.0, gamma)
+            law("SPM-closed-form", on.signal + 1, o.signal + 1)
+            on2 = FIBER(xn, L, al, 0.0, 0.0, gamma)
+            law("SPM-closed-form-with-loss", on2.signal + 1, FIBER(x, L, al, 0, 0, gamma).signal + 1)
             # a vanishing loss (alpha*L ~ 1e-10 .. 1e-14): L_eff -> L, the lattice solution must be reproduced
             law("SPM-lattice-j^m", np.atleast_2d(FIBER(x, L, [1e-12, 1e-15, 3e-11, 1e-13][it % 4], 0.0, 0.0, gamma).signal)[0] + 1, want + 1)
             law("linear-limit=DM", FIBER(x, L, 0.0, 7.5, 0.0, 0.0).signal + 1, DM(x, 7.5 * L).signal + 1)
